@@ -52,6 +52,14 @@ CLAIMED = {
             "Generated-input search over (program, split points); the target analysed with .ti-loader.json preloads must print exactly the records the concatenation prints for the target's rows (rebased), and never mention a preload file. Exploration.",
             "Split points are exact for generated programs and conservative (keyword-depth filter) for corpus programs.",
             "DESIGN.md §4 C18"),
+    "C07": ("property-based testing (Hypothesis: generated configurations x generated call programs) against an independent reference model of the documented call semantics (three-valued: must-report / must-not / don't-care)",
+            "Generated-input search over (configuration, program); every call line the model marks MUST_ERR (no method on any receiver class, count outside every declaration, or an argument rejected by every applicable declaration) must carry a diagnostic. Exploration.",
+            "The model interprets the abstract configuration, not ti's loader; only definite verdicts are asserted (missing keywords, unknown keywords, subclass arguments, rest element types are don't-care). Known finding: overloads sharing a keyword name.",
+            "DESIGN.md §4 C07"),
+    "C08": ("property-based testing (Hypothesis: generated configurations x call programs biased towards valid calls) against the same independent reference model; must-not-report oracle",
+            "Generated-input search; every call line the model marks MUST_OK before the first line that is not MUST_OK must carry no diagnostic. Exploration.",
+            "Same model as C07; only lines before the first definite error / don't-care line are asserted so recovery effects cannot interfere. Known finding: overloads sharing a keyword name.",
+            "DESIGN.md §4 C08"),
 }
 
 PENDING_REASON = "check not built yet in this round (planned in DESIGN.md §3.11); no claim is made"
